@@ -402,6 +402,9 @@ function projectionProblems(data, input, pathStr, out, seen = new Set()) {
     out.push(`${pathStr}: input is a ${input.constructor.name} but data is an array`);
     return;
   }
+  if (input instanceof Map || input instanceof Set || input instanceof Date || ArrayBuffer.isView(input)) {
+    projectionNotes.builtinAsObject = true;
+  }
   // (a builtin instance accepted by an *object type* may come back as the plain object of its declared parts;
   //  when the type declares the builtin itself, `validate(data)` above is what catches a lost kind)
   if (Array.isArray(data)) {
@@ -424,6 +427,7 @@ function projectionProblems(data, input, pathStr, out, seen = new Set()) {
     projectionProblems(data[k], input[k], `${pathStr}.${k}`, out, seen);
   }
 }
+const projectionNotes = { builtinAsObject: false };
 function deepEqualOrdered(a, b) {
   return fingerprint(a) === fingerprint(b);
 }
@@ -559,9 +563,13 @@ function runQuery(env, q) {
           problems.push("validate(data) threw " + JSON.stringify(thrown(e)));
         }
         const pp = [];
+        projectionNotes.builtinAsObject = false;
         projectionProblems(data, input, "$", pp);
+        // a builtin instance that was accepted by an object type (unspecified zone) comes back as a plain object;
+        // which union branches match the parsed value may then legitimately differ: idempotence is not judged
+        const skipIdempotence = projectionNotes.builtinAsObject;
         for (const x of pp) problems.push("not a projection: " + x);
-        try {
+        if (!skipIdempotence) try {
           const again = p.parse(data, opts);
           // equality of values: key order is not part of it (a union merge may reorder keys)
           if (fingerprintUnordered(again) !== fingerprintUnordered(data)) problems.push("parse(data) differs from data: " + safeShow(again) + " vs " + safeShow(data));
